@@ -337,7 +337,7 @@ package reflect
 //@   requires c03_wt: wt != 0 ==> td.WT == wt
 //@   requires c03_dest: dst != 0 ==> p == dst
 //@   requires c01_kind: td != nil && t == td.T
-//@   requires p != nil && typeToSize[t] > 0 && len(b) >= typeToSize[t]
+//@   requires enough: p != nil && typeToSize[t] > 0 && len(b) >= typeToSize[t]
 //@   modifies M[p : p + storeSize(t)]
 //@   ensures n == typeToSize[t]
 //@   ensures c01_value: (t == tBYTE ==> M[p] == old(M[b.ptr])) && (t == tBOOL && old(M[b.ptr]) <= 1 ==> M[p] == old(M[b.ptr]))
